@@ -74,9 +74,9 @@ def py_fn_body(src, name):
 
 
 RUST_RND = [
-    (r"\( u64::MAX as f64 / {v} as f64 \) as u64", "trunc"),
-    (r"\( u64::MAX as f64 / {v} as f64 \)\.round\(\) as u64", "halfAway"),
-    (r"\( u64::MAX as f64 / {v} as f64 \)\.round_ties_even\(\) as u64", "halfEven"),
+    ("( u64::MAX as f64 / {v} as f64 ) as u64", "trunc"),
+    ("( u64::MAX as f64 / {v} as f64 ) .round ( ) as u64", "halfAway"),
+    ("( u64::MAX as f64 / {v} as f64 ) .round_ties_even ( ) as u64", "halfEven"),
 ]
 
 
@@ -97,9 +97,9 @@ def x_scaled(report):
             raise Unrecognised(fn, "match arms changed: " + body[:160])
         rest = body[len(pre):].strip()
         mode = None
+        rest_n = tok(rest.rstrip("}").rstrip().rstrip(",")).replace(" .", ".").replace(". ", ".")
         for pat, name in RUST_RND:
-            p = "^" + pat.replace(" ", r"\s*").replace("{v}", var) + r"\s*,?\s*\}$"
-            if re.match(p, rest):
+            if rest_n == tok(pat.replace("{v}", var)).replace(" .", ".").replace(". ", "."):
                 mode = name
         if mode is None:
             raise Unrecognised(fn, "conversion expression not one of the modelled shapes: " + rest[:160])
